@@ -448,6 +448,9 @@ pub fn run_model_check(ctx: &Ctx, prop: &str, quick_n: usize, thorough_n: usize)
             }
             Err(er) => rep.inconclusive.push(format!("history {}: {}", i, er)),
         }
+        if prop == "C01" && i % 25 == 0 {
+            super::huge::scenario(ctx.seed, i as u64, rep);
+        }
         if prop == "C02" && i % 40 == 0 {
             e5_scenario(ctx.seed, i as u64, rep);
         }
